@@ -227,7 +227,7 @@ Proof.
   - (* TUnion *)
     simpl in WF. apply wf_list_ty in WF. pose proof (Forall_mp _ _ _ H WF) as A. simpl.
     destruct (union_loops v ms A) as [(x & F & U)|(F & ch & U)]; rewrite F, U; exact I.
-  - (* TLiteral *) simpl. destruct (existsb (py_eqb v) vals); exact I.
+  - (* TLiteral *) simpl. destruct (existsb (lit_match v) vals); exact I.
   - (* TEnum *)
     simpl in WF. simpl.
     destruct (enum_inner_agree ms v WF) as [(x & T & Hx)|(T & e & C)]; rewrite T.
